@@ -1,7 +1,7 @@
 # Table of claimed properties, read by gen_manifest.py.
 NOT_APPLICABLE = {}
 NOTE = ("Trusted base: go/packages, go/types and go/cfg of golang.org/x/tools v0.29.0; the rule tables in checker/rules (each instance confirmed by reading the code); "
-        "no pointer analysis (guarded structures are assumed to be reached through their owning receiver); facts established by a branch are assumed not to be invalidated by a later re-assignment of the tested variable. "
+        "no pointer analysis (guarded structures are assumed to be reached through their owning receiver); facts about a local variable are discarded where it is defined again; facts about fields / elements are read as 'at the time of the test' and survive a later store unless store and test share a loop. "
         "Decides the structural clauses listed in the evidence file's coverage.explanation; does not decide coverage.not_decided. "
         "The complete current list of rules with their statements and instance counts is in /verif/RULES.md and in coverage.rules of the evidence file.")
 
@@ -13,10 +13,10 @@ claim("C02", "CFG dominance of filters over every address producer, comparator d
       "Every producer of an address (getIPFromCIDR, poolFor, pinned/fallback pool lists, family selection) is dominated by its membership / policy filters, and the explicit-request branches cannot reach automatic allocation; decided on all paths of the current source. Not a proof of the value-level policy.",
       NOTE, "DESIGN.md section 5, C02")
 claim("C03", "frozen table of admissible reasons + reachability, path-sensitive typestate (emptiness), ownership of Unassign, dominance",
-      "On all paths of convergeBalancer/SetBalancer/SetPools/Allocate: outside twelve enumerated reasons no clear/reset/allocation is reachable, recorded addresses are re-adopted before allocation, existing allocations are returned unchanged, re-grouped pools re-home, no status write without a difference; restart gate/order shared with C06. Not a proof of the frame condition over histories.",
+      "On all paths of convergeBalancer/SetBalancer/SetPools/Allocate: outside twelve enumerated reasons no clear/reset/allocation is reachable, recorded addresses are re-adopted before allocation, existing allocations are returned unchanged, re-grouped pools re-home, no status write without a difference; restart gate/order shared with C06; READOPT-FIRST (the first full pass re-adopts before it allocates) is a recorded known finding (D15). Not a proof of the frame condition over histories.",
       NOTE, "DESIGN.md section 5, C03")
 claim("C06", "CFG dominance (gate), field ownership, comparator analysis, sibling agreement of SyncState switches, path-sensitive typestate",
-      "Restart gate, gate write, assigned-first order, Error->retry / ReprocessAll->reload in all five switches, failed status write -> SyncStateError without touching the allocator, clear-before-allocate; decided on all paths. Not a proof of restart equivalence over crash points.",
+      "Restart gate, gate write, assigned-first order, Error->retry / ReprocessAll->reload in all five switches, failed status write -> SyncStateError without touching the allocator, clear-before-allocate, refused requests give their addresses back; decided on all paths. READOPT-FIRST (a re-adoption pass before the allocating pass) is a recorded known finding (D15). Not a proof of restart equivalence over crash points.",
       NOTE, "DESIGN.md section 5, C06")
 claim("C07", "must-pass-through / branch-always path rules, loop-exit analysis, parameter-threading agreement across call sites",
       "Every release path requests and propagates a full re-sync; the free-address search has no early exit and uses the same keys as the final Assign; decided on all paths. Not a completeness proof against an admissibility oracle.",
